@@ -9,6 +9,24 @@ def is_pause_resume(kind):
     return kind in ("hb-promotion", "hb-pasha", "hb-cost", "hb-rush-prom", "shb", "dehb", "pbt")
 
 
+# Argument sharing (C11): "two schedulers created with the same arguments" includes the very same argument *objects*
+# (one search_options dict, one restrict_configurations list used for several schedulers). While sharing is on, shared()
+# hands out one object per (name, value) so that a scheduler that keeps or mutates a caller-owned argument shows up as
+# interference between instances.
+_SHARE = {"on": False, "objs": {}}
+
+
+def share(on):
+    _SHARE["on"] = on
+    _SHARE["objs"] = {}
+
+
+def shared(name, value):
+    if not _SHARE["on"]:
+        return value
+    return _SHARE["objs"].setdefault((name, repr(value)), value)
+
+
 def make(kind, mode="min", seed=0, R=4, mra=True, space=None, metric="m", allow_duplicates=False, set_tk=True, **kw):
     """returns (scheduler, info) ; info: dict(mra=name|None, metric(s), resource_attr)"""
     from syne_tune.config_space import uniform, choice, randint
@@ -16,6 +34,11 @@ def make(kind, mode="min", seed=0, R=4, mra=True, space=None, metric="m", allow_
     so = {"debug_log": False}
     if allow_duplicates:
         so["allow_duplicates"] = True
+    if kw.get("restrict"):
+        n = kw.pop("restrict")
+        so["restrict_configurations"] = shared("rc", [{"a": round(0.05 + 0.09 * i, 3), "b": (3 * i) % 10} for i in range(n)])
+        kw.setdefault("points_to_evaluate", [])
+    so = shared("so", so)
     info = dict(metric=metric, resource_attr="epoch", mra=None, metrics=None)
     base_space = dict(space) if space is not None else {"a": uniform(0, 1), "b": randint(0, 9)}
     if kind.startswith("fifo"):
